@@ -232,7 +232,7 @@ def attr_list(it, aset):
     for a in ATTR_SETS[aset]:
         if a in PD_ATTRS and not it.dispersible:
             continue      # dispersity attributes only where the current parameter is dispersible
-        if a in (".lower", ".upper") and it.kind in ("control",):
+        if a in (".lower", ".upper") and it.kind in ("control", "consumed"):
             continue
         out.append(a)
     return out
